@@ -11,7 +11,7 @@
 //!            type    unit|u8|u64|a3|al64|big|box|str
 //!            outcome r (closure returns) | p (closure panics)
 //!            op      j join | d drop   (hist only: J join after the thread is gone,
-//!                    w join while the thread sleeps, e drop while the thread is held back,
+//!                    w join while the thread sleeps 1.5 ms, s ... 300 ms, e drop while the thread is held back,
 //!                    l drop after the thread is gone, x drop at once, unsynchronised)
 //! schedule = `ord.gate.kind` joined by `,` (see ctl.rs)
 //!
@@ -156,6 +156,8 @@ fn body<T>(slot: usize, tag: u64, panics: bool, hold: u8, mk: fn(u64) -> T) -> T
         }
     } else if hold == 2 {
         sys::sleep_us(1500);
+    } else if hold == 3 {
+        sys::sleep_us(300_000);
     }
     RUNS[slot].fetch_add(1, SeqCst);
     unsafe {
@@ -277,7 +279,7 @@ fn parse_spec(s: &str) -> Option<Spec> {
         _ => return None,
     };
     let op = it.next()?.as_bytes();
-    if op.len() != 1 || !b"jdJwelx".contains(&op[0]) {
+    if op.len() != 1 || !b"jdJwselx".contains(&op[0]) {
         return None;
     }
     Some(Spec {
@@ -412,7 +414,11 @@ fn mode_gated(args: &[&str]) -> i32 {
     let (Some(tmo), Some(delay)) = (ctl::parse_u(args[0]), ctl::parse_u(args[1])) else {
         return usage();
     };
-    let rev = args[2] == "r";
+    let rev = args[2].starts_with('r');
+    if args[2].ends_with('n') {
+        // the controller polls instead of using futex calls of its own
+        ctl::NOFUTEX.store(1, SeqCst);
+    }
     let mut specs = [None; MAXSPEC];
     let Some(n) = parse_specs(args[3], &mut specs) else {
         return usage();
@@ -555,6 +561,7 @@ fn mode_hist(args: &[&str]) -> i32 {
             let hold = match sp.op {
                 b'e' => 1,
                 b'w' => 2,
+                b's' => 3,
                 _ => 0,
             };
             let h = match spawn_one(slot, tag, sp, hold) {
@@ -566,7 +573,7 @@ fn mode_hist(args: &[&str]) -> i32 {
                 }
             };
             match sp.op {
-                b'j' | b'w' => {
+                b'j' | b'w' | b's' => {
                     if log {
                         do_join(ordinal, slot, h);
                     } else {
